@@ -43,15 +43,13 @@ ob("hist_no_edit", ["C08", "C13"], entry="h_hist_no_edit", bound="group of <= 2 
 # ---------------------------------------------------------------------------- vg.c: Vlone / VSlone
 VTR = ["V-layer model (units/vg_lone_u.c): Vgetid/VSgetid walk tables of <= 3 refs, Vattach/Vdetach count, Vntagrefs/Vgettagref read "
        "member arrays of the attached vgroup (the real functions are under contract in vgp_u.c)"]
-LONE = dict(unit="vg_lone_u.c", file="hdf/src/vg.c", entry="h_lone", mode="bounded", loops=True, loopcls="P", unwind=5, cex_unwind=8,
-            objbits=10, trusted=VTR)
-BM = ("<= 3 vgroups / <= 3 enumerated objects in the file (table loops unwound); member count per vgroup symbolic up to 65535 and the "
-      "65535-entry scan closed by loop contracts; refs <= 65534 (65535: *_maxref)")
-BE = "<= 3 vgroups / objects, <= 3 members per vgroup, asize <= 4 (exact reference model; only the 65535-entry scan under a loop contract); refs <= 65534"
-ob("Vlone_members", "C08", nloops=2, bound=BM, **LONE)
-ob("Vlone_exact", "C08", nloops=1, defines=["VL_EXACT"], bound=BE, **LONE)
-ob("VSlone_members", "C08", nloops=2, defines=["VL_VS"], bound=BM, **LONE)
-ob("VSlone_exact", "C08", nloops=1, defines=["VL_VS", "VL_EXACT"], bound=BE, **LONE)
-# the largest ref (Hnewref hands out 65535): the work area has MAX_REF = 65535 entries
-ob("Vlone_maxref", "C08", nloops=1, defines=["VL_EXACT", "VL_REFMAX=65535"], bound=BE.replace("refs <= 65534", "refs <= 65535"), **LONE)
-ob("VSlone_maxref", "C08", nloops=1, defines=["VL_VS", "VL_EXACT", "VL_REFMAX=65535"], bound=BE.replace("refs <= 65534", "refs <= 65535"), **LONE)
+SC = ("MAX_REF scaled from 65535 to 15 (work area of 15 flags, refs 1..14) so that the scan can be unwound; <= 3 vgroups / enumerated objects, "
+      "<= 3 members per vgroup, asize <= 4; exact reference model")
+LONE = dict(unit="vg_lone_u.c", file="hdf/src/vg.c", entry="h_lone", mode="bounded", unwind=18, cex_unwind=18, objbits=10, trusted=VTR,
+            tier="thorough", timeout=1200)
+S = ["VL_SCALE=15"]
+ob("Vlone_model", "C08", defines=S, bound=SC, **LONE)
+ob("VSlone_model", "C08", defines=S + ["VL_VS"], bound=SC, **LONE)
+# the largest ref (Hnewref hands out MAX_REF itself): the work area has MAX_REF entries, index MAX_REF is one past its end
+ob("Vlone_maxref", "C08", defines=S + ["VL_REFMAX=MAX_REF"], bound=SC + "; refs up to MAX_REF", **LONE)
+ob("VSlone_maxref", "C08", defines=S + ["VL_VS", "VL_REFMAX=MAX_REF"], bound=SC + "; refs up to MAX_REF", **LONE)
